@@ -968,6 +968,25 @@ class Facts:
             for p_ in list(self.bodies):
                 if p_ == newp or p_.startswith(newp + "::{closure"):
                     self.bodies.setdefault(oldp + p_[len(newp):], self.bodies[p_])
+        if self.j.get("moved"):
+            # call sites name the callee by its reviewed path too (rules match callees by name)
+            mv = self.j["moved"]
+            for b in self.j["bodies"]:
+                for blk in b["blocks"]:
+                    t = blk["term"]
+                    if t["k"] == "call":
+                        for newp, oldp in mv.items():
+                            if t.get("resolved") == newp or t.get("callee") == newp:
+                                for k_ in ("callee", "callee_true", "callee_full", "resolved", "resolved_true", "resolved_full"):
+                                    if isinstance(t.get(k_), str):
+                                        t[k_] = t[k_].replace(newp, oldp)
+                                t["renamed_from"] = newp
+                    for st in blk["stmts"]:
+                        if st["k"] == "assign":
+                            rv = st["rv"]
+                            for o in list(rv.get("ops") or []) + ([rv["op"]] if isinstance(rv.get("op"), dict) else []):
+                                if isinstance(o, dict) and "const" in o and o["const"].get("fn") in mv:
+                                    o["const"]["fn"] = mv[o["const"]["fn"]]
         self._cache = {}
         self.adts = {a["path"]: a for a in self.j["adts"]}
         self.impls = self.j["impls"]
@@ -1008,6 +1027,90 @@ class Facts:
 
     def all_bodies(self):
         return self.find_bodies(r"")
+
+    # ---------------- crate call graph (resolved callees, closures, trait impls, function items, fmt impls)
+    def reachable_paths(self, entries=("signature::sigv4_validate_request",)):
+        """Paths of the crate bodies reachable from the entry points. Over-approximate: an unresolved trait-method
+        call reaches every impl of that method in the crate; a closure / function item mentioned in a reachable body
+        is reachable; `{:?}` / `{}` of a crate type reaches its Debug / Display impl."""
+        key = tuple(entries)
+        if getattr(self, "_reach_cache", None) is None:
+            self._reach_cache = {}
+        if key in self._reach_cache:
+            return self._reach_cache[key]
+        by = {}
+        for p_, lst in self.bodies.items():
+            for j in lst:
+                by.setdefault(j["path"], j)
+                by.setdefault(p_, j)  # reviewed path of a moved / renamed function
+        children = {}
+        for p_, j in by.items():
+            if j.get("parent"):
+                children.setdefault(j["parent"], []).append(p_)
+        seen = set()
+        work = [e for e in entries if e in by]
+        while work:
+            p_ = work.pop()
+            if p_ in seen:
+                continue
+            seen.add(p_)
+            j = by[p_]
+            nxt = list(children.get(p_, []))
+            for blk in j["blocks"]:
+                for st in blk["stmts"]:
+                    if st["k"] == "assign":
+                        rv = st["rv"]
+                        if rv.get("closure"):
+                            nxt.append(rv["closure"])
+                        for o in rv.get("ops", []) or []:
+                            if isinstance(o, dict) and "const" in o and o["const"].get("fn"):
+                                nxt.append(o["const"]["fn"])
+                        o = rv.get("op")
+                        if isinstance(o, dict) and "const" in o and o["const"].get("fn"):
+                            nxt.append(o["const"]["fn"])
+                t = blk["term"]
+                if t["k"] != "call":
+                    continue
+                for a in t.get("args", []):
+                    if isinstance(a, dict) and "const" in a and a["const"].get("fn"):
+                        nxt.append(a["const"]["fn"])
+                r = t.get("resolved")
+                c = t.get("callee", "")
+                if r in by:
+                    nxt.append(r)
+                elif c in by:
+                    nxt.append(c)
+                if t.get("resolved_full") in by:
+                    nxt.append(t["resolved_full"])
+                if r == "GENERIC" or (r not in by and t.get("trait")):
+                    m = c.split("::")[-1]
+                    tr = t.get("trait") or "::".join(c.split("::")[:-1])
+                    for q in by:
+                        if q.endswith(">::" + m) and (" as " + tr + ">") in q.replace("<'", "<"):
+                            nxt.append(q)
+                        elif q.endswith(">::" + m) and tr.split("::")[-1] in q and " as " in q:
+                            nxt.append(q)
+                if re.search(r"fmt::rt::Argument::<'_>::new_(debug|display|lower_hex|upper_hex)$", c) and t.get("gargs"):
+                    tys = [g for g in t["gargs"] if not g.startswith("'")]
+                    ty = (tys[-1] if tys else "").lstrip("&").strip()
+                    for q in by:
+                        if q.startswith("<" + ty + " as std::fmt::") and q.endswith(">::fmt"):
+                            nxt.append(q)
+            work += [x for x in nxt if x in by and x not in seen]
+        self._reach_cache[key] = seen
+        return seen
+
+    def new_and_unreachable(self, body):
+        """A body that was not part of the reviewed tree and that validation can never execute: whole-crate
+        inventories about validation outcomes do not apply to it (reviewed functions always stay in scope)."""
+        import inline
+        pin = inline.pinned_functions()
+        if pin is None:
+            return False
+        base = re.sub(r"(::\{closure#\d+\})+$", "", body.path)
+        if base in pin or body.path in pin or base in (self.j.get("moved") or {}):
+            return False
+        return body.path not in self.reachable_paths() and base not in self.reachable_paths()
 
     def coroutine_of(self, fn_path):
         """The async body (closure with coroutine_kind) whose parent is fn_path."""
